@@ -32,6 +32,12 @@ check("C17", "exploration",
       "model-based property testing (rapid): generated histories + algebraic laws on a projection",
       "DESIGN.md §4 C17")
 
+check("C18", "exploration",
+      "Generated scenarios (join orders, seed layouts, timer phases, latencies, losses, partitions, connection resets, crashes, restarts, leaves) are run with real NodeActor values in a deterministic virtual-time simulation that uses the library's wire codec; after the faults stop the clauses of the property are judged on every node's view and event stream over a bounded horizon.",
+      "'Eventually' is bounded (180 s without timeouts, 12 detection timeouts with them); the actor runtime and TCP are replaced by their contracts; with failure detection active only the permanent forms of disagreement are violations, the transient ones are known findings KF-C18-3..7 (two root causes, not small patches).",
+      "model-based / stateful property testing (rapid) of the real protocol code on a simulated network and clock; invariant-over-history oracle",
+      "DESIGN.md §3.7, §4 C18")
+
 check("C12", "exploration",
       "Generated values of every registered wire type (registry enumerated at run time), envelopes and primitive programs are round-tripped through the real writer/reader and compared with a semantic equality; the reader must consume exactly what the writer produced.",
       "Sampling, not exhaustive; equality normalisations are listed in the evidence assumptions and DESIGN.md §3.8.",
